@@ -235,10 +235,50 @@ def sample_of(c):
 
 
 # ---------------------------------------------------------------- C01
+def truthiness_timing_family():
+    """Loops and conditionals whose tested value is an object that changes its truthiness when the
+    body runs: the test must be made when the semantics say, on the value's truthiness at that moment."""
+    E = lambda k, *c: T("eff", k, list(c))
+    V = lambda i: T("var", i)
+    NONE = ["none", 0, []]
+    out = []
+    for cond in ("plain", "stmt", "and"):
+        for tail in ("none", "else", "break"):
+            c = E(2) if cond == "plain" else T("do", 0, [T("setv", 0, [V(1), E(1)]), E(2)]) if cond == "stmt" \
+                else T("and", 0, [E(2), T("do", 0, [T("setv", 0, [V(1), E(1)]), E(2)])])
+            body = [E(3)] + ([T("else", 0, [E(4)])] if tail == "else" else [])
+            if tail == "break":
+                body = [E(3), T("when", 0, [E(4), T("break")])]
+            t = T("do", 0, [T("while", 0, [c] + body), E(5)])
+            for flips in (3, 5):
+                script = {1: [["int", 1, []]], 2: [["box", flips, []], ["box", flips, []], NONE], 3: [NONE],
+                          4: [["bool", 0, []], ["bool", 1, []]], 5: [NONE]}
+                out.append((t, script))
+    for form in ("if", "when", "not", "cond"):
+        test = T("do", 0, [T("setv", 0, [V(1), E(1)]), E(2)])
+        if form == "if":
+            f = T("if", 0, [test, E(3), E(4)])
+        elif form == "when":
+            f = T("when", 0, [test, E(3)])
+        elif form == "not":
+            f = T("not", 0, [test])
+        else:
+            f = T("cond", 0, [test, E(3), E(2), E(4)])
+        t = T("do", 0, [E(3), f, E(3), clone(f)])
+        out.append((t, {1: [NONE], 2: [["box", 3, []]], 3: [["int", 7, []]], 4: [["int", 8, []]]}))
+    return out
+
+
 def main_c01(run):
     rng = random.Random(run.seed)
     q = run.quick
     nv = 4
+    fam = truthiness_timing_family()
+    fcases = [observe(t, sc, {}, {}, nv, tag="box") for t, sc in fam] + \
+             [observe(wrap_in_fn(t, 4), sc, {}, {}, nv, tag="box in fn") for t, sc in fam]
+    us = decide(run, fcases, nv, "c01-truthiness", explore_small=40)
+    for c in us[:1]:
+        run.sample(sample_of(c))
     # exhaustive small programs over a core form set
     forms_small = {"lit", "var", "eff", "eff1", "do", "if", "and", "or", "setv", "setx", "list", "+",
                    "when", "while", "break", "let", "fn", "call", "try", "raise"}
